@@ -72,6 +72,7 @@ static void chan_setup(void) {
     strcpy(k, "chan_cap0");
     k[8] = (char)('0' + c);
     int lg = (int)cfg_get(k, 1);
+    RT_DIRTY(ch_sig[c]);
     fiber_signal_init(&ch_sig[c]);
     vs_watch(&ch_sig[c], sizeof ch_sig[c]);
     switch (ch_type[c]) {
@@ -81,18 +82,22 @@ static void chan_setup(void) {
         ch_b[c] = fiber_bounded_channel_create((uint32_t)lg, ch_type[c] == CH_BOUNDED_SIG ? &ch_sig[c] : 0);
         break;
       case CH_UNBOUNDED:
+        RT_DIRTY(ch_u[c]);
         fiber_unbounded_channel_init(&ch_u[c], &ch_sig[c]);
         break;
       case CH_UNBOUNDED_SPIN:
+        RT_DIRTY(ch_u[c]);
         fiber_unbounded_channel_init(&ch_u[c], 0);
         break;
       case CH_UNBOUNDED_SP:
+        RT_DIRTY(ch_sp[c]);
         fiber_unbounded_sp_channel_init(&ch_sp[c], &ch_sig[c]);
         break;
     }
   }
 }
 
+static int ch_try_empty;
 static int chan_do_op(int idx, op_t* op) {
   int c = op->a % NCH;
   if (!strcmp(op->name, "send")) {
@@ -156,6 +161,46 @@ static int chan_do_op(int idx, op_t* op) {
     }
     return 1;
   }
+  if (!strcmp(op->name, "tryrecv")) {
+    // the non-blocking receive entry points, polled with fiber_yield until b messages have arrived
+    for (int i = 0; i < op->b; i++) {
+      gch_recv_begin(c);
+      void* m = 0;
+      for (;;) {
+        g_nb_enter(idx);
+        switch (ch_type[c]) {
+          case CH_BOUNDED_SIG:
+          case CH_BOUNDED_SPIN:
+            if (!fiber_bounded_channel_try_receive(ch_b[c], &m)) m = 0;
+            break;
+          case CH_UNBOUNDED:
+          case CH_UNBOUNDED_SPIN: {
+            fiber_unbounded_channel_message_t* n = fiber_unbounded_channel_try_receive(&ch_u[c]);
+            if (n) {
+              m = n->data;
+              free(n);
+            }
+            break;
+          }
+          case CH_UNBOUNDED_SP: {
+            fiber_unbounded_sp_channel_message_t* n = fiber_unbounded_sp_channel_try_receive(&ch_sp[c]);
+            if (n) {
+              m = n->data;
+              free(n);
+            }
+            break;
+          }
+        }
+        g_nb_exit(idx);
+        if (m) break;
+        g_incr(&ch_try_empty);
+        fiber_yield();
+      }
+      gch_recv(c, idx, m);
+      if (op->c) rt_work(idx, op->c);
+    }
+    return 1;
+  }
   return 0;
 }
 
@@ -171,8 +216,9 @@ GHOST static void chan_final(void) {
   if (n) {
     vs_label_add("chan_messages", total);
     vs_label_add("chan_recv_blocked", ch_recv_blocked);
+    vs_label_add("chan_try_receive_empty", ch_try_empty);
     vs_label_add("chan_send_woke", ch_send_woke);
-    if (total > 0 && (ch_recv_blocked > 0 || ch_send_woke > 0 || g_case.threads > 1)) rt_nontrivial("chan");
+    if (total > 0 && (ch_recv_blocked > 0 || ch_send_woke > 0 || ch_try_empty > 0 || g_case.threads > 1)) rt_nontrivial("chan");
   }
   vs_rt_exit();
 }
@@ -228,6 +274,7 @@ GHOST static void gms_quiescent(void) {
 static void ms_setup(void) {
   ms_on = (int)cfg_get("msig", 0);
   if (!ms_on) return;
+  RT_DIRTY(msig);
   fiber_multi_signal_init(&msig);
   vs_watch(&msig, sizeof msig);
   for (int i = 0; i < g_case.n_fibers; i++)
